@@ -369,8 +369,12 @@ func buildInlineOverlay(root string, env []string) (map[string][]byte, *InlineNo
 
 var genBindingDecl = regexp.MustCompile(`var inl\d+_\w+ func\(`)
 
+// curInlineRound: the round inlineRounds is in (read by (*inliner).run).
+var curInlineRound int
+
 func inlineRounds(root string, env []string, overlay map[string][]byte, note *InlineNote) {
 	for round := 0; round < 5; round++ {
+		curInlineRound = round
 		dirs := map[string]bool{}
 		cands := map[string]bool{} // funcKey
 		scanFuncsOverlay(root, overlay, func(rel, file string, fd *ast.FuncDecl) {
@@ -1757,7 +1761,12 @@ func (in *inliner) run() {
 				continue
 			}
 			if obj, _ := in.info().Defs[fd.Name].(*types.Func); obj != nil && in.helpers[obj] != nil {
-				continue // helper bodies are expanded where they land (next round)
+				if curInlineRound == 0 {
+					continue // helper bodies are expanded where they land (next round)
+				}
+				// a helper that is still here after the first round could not be expanded at some call
+				// site: the calls of other unknown helpers inside it (e.g. the generated min / max
+				// models) are expanded in its own body
 			}
 			in.curFn = fd.Name.Name
 			in.block(fd.Body)
